@@ -260,8 +260,106 @@ func c13Configs() []c13Input {
 	return out
 }
 
+// c13Placements: control-flow and definition statements placed in every combination of two
+// enclosing contexts (loops still open, loops already closed, switch cases, functions, branches).
+func c13Placements() []c13Input {
+	ctxs := []struct{ name, text string }{
+		{"plain", "$S\n"},
+		{"after-for", "for i := 0; i < 1; i++ {\n}\n$S\n"},
+		{"after-range", "for _, v := range []int{1} {\n\tprint(v)\n}\n$S\n"},
+		{"after-func-with-loop", "func lp() {\n\tfor {\n\t\tbreak\n\t}\n}\n$S\n"},
+		{"in-if", "if true {\n$S\n}\n"},
+		{"in-else", "if false {\n} else {\n$S\n}\n"},
+		{"in-switch", "switch {\ndefault:\n$S\n}\n"},
+		{"in-switch-value", "switch 1 {\ncase 1:\n$S\n}\n"},
+		{"in-for", "for {\n$S\n}\n"},
+		{"in-for3", "for j := 0; j < 2; j++ {\n$S\n}\n"},
+		{"in-range", "for _, w := range []int{1, 2} {\n$S\n}\n"},
+		{"in-func", "func fn() {\n$S\n}\nfn()\n"},
+		{"in-func-int", "func fi() int {\n$S\nreturn 0\n}\nprint(fi())\n"},
+		{"before-for", "$S\nfor {\n\tbreak\n}\n"},
+	}
+	stmts := []string{"break", "continue", "return", "return 1", "return 1, 2", "x := 1", "var x int", "func g() {\n}", "import \"strings\"", "case 1:", "default:", "} else {", "panic(\"p\")", "print(1)", "x++", "fn()", "fi()", "}", "{"}
+	out := []c13Input{}
+	for _, a := range ctxs {
+		for _, b := range ctxs {
+			for si, st := range stmts {
+				text := strings.ReplaceAll(a.text, "$S", strings.TrimRight(strings.ReplaceAll(b.text, "$S", st), "\n"))
+				out = append(out, c13Input{key: fmt.Sprintf("placement/%s/%s/%d", a.name, b.name, si), files: map[string]string{"main.tsh": text}})
+			}
+		}
+	}
+	return out
+}
+
+// c13StdGraphs: import graphs that run through the std directory next to the executable (modules
+// found there are imported by bare name). Every graph shape gets its own pair of module files
+// (vg<shape>a / vg<shape>b) because the directory is shared by all jobs; they are written once
+// before the run and removed afterwards.
+func c13StdGraphs() ([]c13Input, map[string]string) {
+	std := map[string]string{}
+	out := []c13Input{}
+	lib := "import (\n\tm \"main.tsh\"\n)\n\nfunc L() int {\n\treturn 2\n}\n"
+	for shape := 0; shape < 16; shape++ {
+		for style := 0; style < 2; style++ {
+			names := []string{fmt.Sprintf("vg%02d%da", shape, style), fmt.Sprintf("vg%02d%db", shape, style)}
+			for i, n := range names {
+				sub := (shape >> (2 * i)) & 3
+				var b strings.Builder
+				if sub != 0 {
+					b.WriteString("import (\n")
+					for j, m := range names {
+						if sub>>j&1 == 1 {
+							if style == 0 {
+								fmt.Fprintf(&b, "\t\"%s\"\n", m) // bare name, resolved via the std directory
+							} else {
+								fmt.Fprintf(&b, "\tq%d \"%s.tsh\"\n", j, m) // relative path next to the importing file
+							}
+						}
+					}
+					b.WriteString(")\n\n")
+				}
+				fmt.Fprintf(&b, "func F() int {\n\treturn %d\n}\n", i)
+				std[n+".tsh"] = b.String()
+			}
+			for k, mainSrc := range []string{
+				fmt.Sprintf("import \"%s\"\n\nprint(%s.F())\n", names[0], names[0]),
+				fmt.Sprintf("import \"%s\"\n\nprint(%s.F())\n", names[1], names[1]),
+				fmt.Sprintf("import (\n\t\"%s\"\n\t\"%s\"\n)\n\nprint(%s.F(), %s.F())\n", names[0], names[1], names[0], names[1]),
+				fmt.Sprintf("import (\n\tl \"lib.tsh\"\n\tz \"%s\"\n)\n\nprint(l.L(), z.F())\n", names[0]),
+			} {
+				files := map[string]string{"main.tsh": mainSrc}
+				if k == 3 {
+					files["lib.tsh"] = strings.Replace(lib, "m \"main.tsh\"", "z \""+names[1]+"\"", 1)
+				}
+				out = append(out, c13Input{key: fmt.Sprintf("config/std-graph/%02d/style%d/main%d", shape, style, k), files: files})
+			}
+		}
+	}
+	// a chain of 40 local files and a chain that closes on its first member
+	for _, closed := range []bool{false, true} {
+		files := map[string]string{}
+		for i := 0; i < 40; i++ {
+			src := fmt.Sprintf("func F%d() int {\n\treturn %d\n}\n", i, i)
+			next := i + 1
+			if i == 39 {
+				next = -1
+				if closed {
+					next = 0
+				}
+			}
+			if next >= 0 {
+				src = fmt.Sprintf("import n \"c%02d.tsh\"\n\n", next) + src
+			}
+			files[fmt.Sprintf("c%02d.tsh", i)] = src
+		}
+		out = append(out, c13Input{key: fmt.Sprintf("config/chain40/closed=%v", closed), main: "c00.tsh", files: files})
+	}
+	return out, std
+}
+
 func checkC13(c *Check) {
-	c.Rule = "hostile inputs fed to the real Transpile in child worker processes (recover + death/hang detection + isolated confirmation): all single-token edits (delete, duplicate, swap, truncate, replace by 66 representative lexemes) of a corpus of valid programs (sampled in the quick tier), random double edits, random bytes / token-alphabet bytes / token soups, semantic near-misses (void and multi-value calls at every operand position, malformed headers and literals), configurations (missing/empty/directory main file, broken imports, all 512 import graphs over three files incl. self- and mutual imports); oracle = result-shape predicate (exactly one of script / error, non-empty error text, no panic, no worker death, return within the bound) for both targets. Non-trivial = every input; distinct = SHA-256 of the input files"
+	c.Rule = "hostile inputs fed to the real Transpile in child worker processes (recover + death/hang detection + isolated confirmation): all single-token edits (delete, duplicate, swap, truncate, replace by 66 representative lexemes) of a corpus of valid programs (sampled in the quick tier), random double edits, random bytes / token-alphabet bytes / token soups, semantic near-misses (void and multi-value calls at every operand position, malformed headers and literals), control-flow/definition statements placed in all pairs of 14 enclosing contexts (open and already closed loops, switch cases, functions, branches), configurations (missing/empty/directory main file, broken imports, all 512 import graphs over three files incl. self- and mutual imports, all 16 graphs over two modules of the std directory in both import styles reached from the main file and from a local library, chains of 40 files); oracle = result-shape predicate (exactly one of script / error, non-empty error text, no panic, no worker death, return within the bound) for both targets. Non-trivial = every input; distinct = SHA-256 of the input files"
 	c.Assumptions = []string{"termination bound: 20 s in a loaded worker, then 90 s alone in a fresh worker; a hit is reported only after the isolated confirmation (normal cost is milliseconds)", "worker stack limit 256 MiB so that unbounded recursion dies quickly"}
 	runProbes(c, bashProbeJudge)
 	r := rand.New(rand.NewSource(c.Seed*13000027 + 3))
@@ -270,6 +368,20 @@ func checkC13(c *Check) {
 	inputs := []c13Input{}
 	inputs = append(inputs, c13Configs()...)
 	inputs = append(inputs, c13NearMisses()...)
+	inputs = append(inputs, c13Placements()...)
+	stdIn, stdFiles := c13StdGraphs()
+	inputs = append(inputs, stdIn...)
+	if exe, err := os.Executable(); err == nil {
+		stdDir := filepath.Join(filepath.Dir(exe), "std")
+		for n, src := range stdFiles {
+			os.WriteFile(filepath.Join(stdDir, n), []byte(src), 0o644)
+		}
+		defer func() {
+			for n := range stdFiles {
+				os.Remove(filepath.Join(stdDir, n))
+			}
+		}()
+	}
 	inputs = append(inputs, c13Edits(c, corpus, c.Pick(12000, 0), r)...)
 	inputs = append(inputs, c13DoubleEdits(corpus, c.Pick(3000, 150000), r)...)
 	inputs = append(inputs, c13Random(c.Pick(6000, 100000), r)...)
@@ -358,7 +470,12 @@ func checkC13(c *Check) {
 			cls = "script"
 		}
 		mu.Lock()
-		classes[strings.SplitN(in.key, "/", 2)[0]+":"+cls]++
+		fam := strings.SplitN(in.key, "/", 3)
+		if fam[0] == "config" && len(fam) == 3 {
+			classes[fam[0]+"/"+fam[1]+":"+cls]++
+		} else {
+			classes[fam[0]+":"+cls]++
+		}
 		if sampleN < 4 && (j.ID%3001 == 5 || strings.HasPrefix(in.key, "config/import-graph/777")) {
 			sampleN++
 			c.samples = append(c.samples, map[string]interface{}{"key": in.key, "files": files, "bash_error": clip(res.Bash.Err, 200), "script_bytes": res.Bash.Len})
